@@ -1,9 +1,9 @@
-(* Proofs/ManifestProofs.v -- column bounds survive the manifest-level round trip (several entries,
+(* Proofs/Manifest13Proofs.v -- column bounds survive the manifest-level round trip (several entries,
    several columns, ADDED and EXISTING entries) type-faithfully, hence pruning on the DataFiles read
    back from a manifest is pruning on the bounds the writer computed, hence sound (C13). *)
 From Coq Require Import ZArith List Bool String.
 Require Import DS.Model.Value DS.Model.BoundPrim DS.Gen.GenBound DS.Model.Bound DS.Model.ManifestPrim
-               DS.Gen.GenManifest DS.Gen.GenPrune DS.Model.Prune DS.Model.Manifest
+               DS.Gen.GenManifest13 DS.Gen.GenPrune DS.Model.Prune DS.Model.Manifest13
                DS.Proofs.BoundProofs DS.Proofs.PruneProofs.
 Import ListNotations.
 Open Scope Z_scope.
